@@ -49,8 +49,12 @@ def families(seed, n):
             # members given as OWNED compiled globs carry their flags in the token tree only: generate flags there
             parts = [(gp if law == "any-owned" else g).expr() for _ in range(r.randint(1, 3))]
             whole = None
+        if whole is None and r.random() < 0.12:
+            # the empty pattern is a pattern too: the only one that matches the empty path
+            parts = list(parts)
+            parts.insert(r.randrange(len(parts) + 1), "")
         key = (law, whole, tuple(parts))
-        if key in seen or any(p == "" for p in parts):
+        if key in seen or (whole is not None and any(p == "" for p in parts)):
             continue
         seen.add(key)
         out.append((law, whole, parts))
